@@ -45,14 +45,17 @@ CANDIDATES = {
 }
 
 
-def _gen_key(*parts):
+def _gen_key(kind, tier, *parts):
     """Key of the tree-independent artefacts (model-check results, generated behaviours and case tables): they depend on
-    the specification, this file and the seed only, never on the repository under test."""
+    the specification, the generation parameters and the seed only, never on the repository under test."""
     import hashlib
     h = hashlib.sha256()
-    for f in sorted(glob.glob(os.path.join(SPEC_DIR, "*.tla"))) + [os.path.abspath(__file__)]:
+    for f in sorted(glob.glob(os.path.join(SPEC_DIR, "*.tla"))):
         h.update(open(f, "rb").read())
-    return h.hexdigest()[:16] + "-" + "-".join(str(x) for x in parts)
+    cfg = {"std": STD, "levels": LEVELS, "high": HIGH_LEVEL, "sizes": sizes(tier), "diffs": WALK_DIFFS,
+           "mc": {k: {a: (sorted(b) if isinstance(b, set) else b) for a, b in v.items()} for k, v in mc_configs(tier).items()}}
+    h.update(json.dumps(cfg, sort_keys=True).encode())
+    return h.hexdigest()[:16] + "-" + "-".join(str(x) for x in (kind, tier) + parts)
 
 
 def _gen_cached(key, fn):
@@ -138,7 +141,7 @@ def _run_mc(tier):
             cfg = os.path.join(d, "MC_%s.cfg" % name)
             invs = ["Inv"] + (["MutantsRejected", "LibImpliesStated"] if name.startswith("hdr") else [])
             vk.write_cfg(cfg, "Spec", c, invariants=invs, properties=MC_PROPS, constraint="Bound", view="View")
-            r = vk.tlc_mc(d, "MC_TMClient", cfg, workers=4, timeout=400 if tier == "quick" else 2400)
+            r = vk.tlc_mc(d, "MC_TMClient", cfg, workers=4, timeout=1500 if tier == "quick" else 3000)
             seen = set(re.findall(r'<<"WITNESS", "([A-Za-z0-9-]+)">>', r["out"]))
             missing = [w for w in MC_WITNESS[name] if w not in seen]
             if missing:
@@ -420,7 +423,7 @@ def probe_known(pid, known, result):
     if pid == "C24" and _kf_status("KF-C24-1") == "open":
         p = result.get("probes", {}).get("KF-C24-1")
         if p and p.get("reproduced"):
-            lines.append("KNOWN-FINDING: property=C24 id=KF-C24-1 %s (%d of %d probe cases in the class; e.g. %s)" % (
+            lines.append("KNOWN-FINDING: property=C24 id=KF-C24-1 %s (%d accepted among the %d probe cases whose inputs lie in the class; e.g. %s)" % (
                 CANDIDATES["KF-C24-1"]["what"], p["reproduced"], p["cases"], p.get("example")))
         elif p:
             lines.append("NOTICE: property=C24 id=KF-C24-1 no longer reproduces (%d probe cases in the class)" % p["cases"])
